@@ -804,6 +804,42 @@ theorem encode_injective {f : Fmt} {ps : List Name} (hw : wellFormed f ps = true
   rw [h, b] at a
   simpa using a.symm
 
+/-! ### the encoding is a function of the field values alone (mutation histories)
+
+    In the model an element IS its value: there is no other state.  So whatever sequence of re-assignments produced the
+    current field values - crossing conditional thresholds in either direction, from a constructed or a decoded start -
+    the bytes, the length and the decoded value are those of a freshly built element with the same field values.  This is
+    true of the description language by construction; the content is the TIE: sarpy's elements carry extra state
+    (`ImageBands._count_size`, cached tables, ...) and the harness (harness/c13x.py, histories) requires after every public
+    re-assignment that `to_bytes()` equals the bytes of a freshly constructed element with the same field values and the
+    model's encoding of those values. -/
+
+/-- a mutation history: any sequence of re-assignments, each an arbitrary function of the current field values -/
+def runHistory (steps : List (Val → Val)) (v0 : Val) : Val := steps.foldl (fun v g => g v) v0
+
+/-- **C13x-6** two histories that end in the same field values give the same bytes and the same length -/
+theorem encode_history_independent (env0 : Env) (f : Fmt) (h1 h2 : List (Val → Val)) (a b : Val)
+    (h : runHistory h1 a = runHistory h2 b) :
+    encode env0 f (runHistory h1 a) = encode env0 f (runHistory h2 b) ∧
+      length env0 f (runHistory h1 a) = length env0 f (runHistory h2 b) := by
+  rw [h]; exact ⟨rfl, rfl⟩
+
+/-- in particular the element reached by a history encodes like the freshly built element `v` with the same field values -/
+theorem encode_after_history (env0 : Env) (f : Fmt) (steps : List (Val → Val)) (v0 v : Val) (h : runHistory steps v0 = v) :
+    encode env0 f (runHistory steps v0) = encode env0 f v := by rw [h]
+
+/-- and it decodes back to exactly those field values, whatever follows -/
+theorem history_round_trip {f : Fmt} {ps : List Name} (hw : wellFormed f ps = true) (env0 : Env) (steps : List (Val → Val)) (v0 : Val)
+    (ha : accept env0 f (runHistory steps v0) = true) (rest : Bytes) :
+    decode env0 f (encode env0 f (runHistory steps v0) ++ rest) = some (runHistory steps v0, rest) ∧
+      (encode env0 f (runHistory steps v0)).length = length env0 f (runHistory steps v0) :=
+  ⟨decode_encode hw env0 ha rest, encode_length env0 f ha⟩
+
+/-- the bytes say exactly what the field values are: equal bytes iff equal values (nothing else can enter the encoding) -/
+theorem encode_eq_iff {f : Fmt} {ps : List Name} (hw : wellFormed f ps = true) (env0 : Env) {v1 v2 : Val}
+    (h1 : accept env0 f v1 = true) (h2 : accept env0 f v2 = true) : encode env0 f v1 = encode env0 f v2 ↔ v1 = v2 :=
+  ⟨encode_injective hw env0 h1 h2, fun h => by rw [h]⟩
+
 /-! ### a byte area filled exactly by self-delimiting items (TRE list inside a user header) -/
 
 theorem decMany_encItems (df : Bytes → Option (Val × Bytes)) (g : Val → Bytes) (p : Val → Bool)
@@ -902,6 +938,11 @@ example (rest : Bytes) :
     decode [] bandsLike (encode [] bandsLike (.cons (.int 2) (.cons .none (.cons (.cons bandLut (.cons bandNoLut .nil)) .nil))) ++ rest) =
       some (.cons (.int 2) (.cons .none (.cons (.cons bandLut (.cons bandNoLut .nil)) .nil)), rest) :=
   decode_encode bandsLike_wf [] (by decide) rest
+
+/-- a band loop re-assigned from 12 bands (XBANDS form) to 3 bands: the count fields are part of the value, and the only accepted
+    value with three bands in the one-digit form encodes with a one-byte count -/
+example : (encode [] bandsLike (.cons (.int 3) (.cons .none (.cons (.cons bandNoLut (.cons bandNoLut (.cons bandNoLut .nil))) .nil)))).take 1 = [51] := by
+  decide
 
 /-- a user-header area: 5-digit length, then (if > 0) a 3-digit overflow field and the data -/
 def userHeader : Fmt := .blob 5 3
